@@ -1,6 +1,6 @@
 """property -> rule sets (DESIGN §4)"""
 from engine import ok, bad, assumed, floor
-import r_lock, r_panic, r_errd, r_order, r_misc, r_nowrap, r_desc, r_registry, r_effects, r_value, r_ctx
+import r_lock, r_panic, r_errd, r_order, r_misc, r_nowrap, r_desc, r_registry, r_effects, r_value, r_ctx, r_parse
 
 PROPS = {}
 
@@ -267,3 +267,33 @@ def c06(ctx):
     obs += r_ctx.rule_chain(prog, em)
     obs += r_order.rule_o4(em, ('child', 'handler'))
     return obs, {'analysed': {'evaluator_bodies': len(em.bodies)}}
+
+
+def parse_roles(ctx):
+    if 'pr' not in ctx.cache:
+        ctx.cache['pr'] = r_parse.ParseRoles(ctx.prog)
+    return ctx.cache['pr']
+
+
+@prop('C05',
+      'WEXPECT: in the expected-token check (role: body (&mut Tokenizer, &str) -> Result<()>) every Ok(()) is dominated by the true edge of a comparison between the inspected token\'s text and the &str parameter. '
+      'CLOSER: a List / Map / Function node, and the inner expression of parentheses, is returned only on a path dominated by a check of the matching closing delimiter (expect("]")? / predicate-true edge). '
+      'SEP: every feasible path from one list / map / call element to the next consumes "," (feasibility = token-fact pruning: a pure predicate on the current token keeps its value until the tokenizer may advance); the part after ":" of a map entry / conditional is parsed only after expect(":")?. '
+      'WPREFIX: a Unary node with a non-constant operator is built only on the "registered prefix operator" edge. STRTERM: a String token is built only behind the true edge of a char == char comparison (through a constant flag if need be). STRAY: comma, semicolon, end of input and closing / unknown delimiters in primary position reach only failure returns. '
+      'ERRD over Reach(parse_expression): every crate Result and every from_str / parse / checked_* result is ?-propagated, returned, or matched with a failing arm (unterminated string, malformed number => Err).',
+      not_decided='language inclusion L(parser) within L(grammar) in general (a property of all token sequences); only the named necessary conditions are decided',
+      assumptions=COMMON_ASSUME)
+def c05(ctx):
+    roles = parse_roles(ctx)
+    obs = r_parse.rule_floors(roles)
+    if any(o.status == 'violated' for o in obs):
+        return obs, {}
+    obs += r_parse.rule_wexpect(roles)
+    obs += r_parse.rule_closer(roles)
+    obs += r_parse.rule_sep(roles)
+    obs += r_parse.rule_wprefix(roles, ctx.lm)
+    obs += r_parse.rule_stray(roles)
+    obs += r_parse.rule_strterm(roles)
+    bodies = [ctx.prog.by_id[i] for i in sorted(roles.reach)]
+    obs += r_errd.rule_errd(bodies, extra_callee_pred=fallible_conv)
+    return obs, {'analysed': {'parse_reach': len(bodies), 'parse_bodies': len(roles.parse_bodies)}}
